@@ -226,18 +226,40 @@ def run(ctx, rep):
     rep.ob("R02.4", "generated methods carry the remote method's name", oknm, "__name__ == name and __doc__ == doc for all %d" % len(expect)
            if oknm else "generated forwarders are mis-named: %s" % "; ".join(bad_name), fm.loc, kind="table")
     fgm = ctx.func("rpyc.lib.get_methods")
-    gp = A.params(fgm.node)
-    src = A.src(fgm.node)
-    okm = "type(%s).__mro__" % gp[1] in src and "%s.__mro__" % gp[1] in src and any(
-        isinstance(n, ast.If) and A.src(n.test) == "isinstance(%s, type)" % gp[1] for n in A.walk(fgm.node))
+    # concrete evaluation of get_methods on a small model class hierarchy (metaclass M(type); class C(B); instance of C)
+    def fn_(doc):
+        return MI.ModelObj("fn:" + doc, {"__call__": True, "__doc__": doc})
+    O = MI.ModelObj("object", {"__dict__": {"f": fn_("object.f"), "x": MI.ModelObj("data")}})
+    TY = MI.ModelObj("type", {"__dict__": {"m": fn_("type.m"), "t": fn_("type.t"), "mro": fn_("type.mro")}})
+    Mm = MI.ModelObj("M", {"__dict__": {"g": fn_("M.g"), "m": fn_("M.m")}})
+    Bc = MI.ModelObj("B", {"__dict__": {"f": fn_("B.f"), "g": fn_("B.g"), "loc": fn_("B.loc")}}, cls=Mm)
+    Cc = MI.ModelObj("C", {"__dict__": {"g": fn_("C.g"), "y": MI.ModelObj("data")}}, cls=Mm)
+    O.cls = TY
+    TY.cls = TY
+    Mm.cls = TY
+    O.attrs["__mro__"] = (O,)
+    TY.attrs["__mro__"] = (TY, O)
+    Mm.attrs["__mro__"] = (Mm, TY, O)
+    Bc.attrs["__mro__"] = (Bc, O)
+    Cc.attrs["__mro__"] = (Cc, Bc, O)
+    inst = MI.ModelObj("C()", {}, cls=Cc)
+    classes = {id(x) for x in (O, TY, Mm, Bc, Cc)}
+    extra = {"__calls__": {"inspect.getdoc": lambda a: a.attrs.get("__doc__"), "callable": lambda a: "__call__" in a.attrs},
+             "__isinstance__": lambda v, t: (id(v) in classes) if t == "type" else False}
+    want_inst = {"f": "B.f", "g": "C.g"}
+    want_cls = {"f": "B.f", "g": "C.g", "m": "M.m", "t": "type.t", "mro": "type.mro"}
+    got = {}
+    try:
+        got["inst"] = dict(MI.call_function(fgm.node, [("loc",), inst], extra))
+        got["cls"] = dict(MI.call_function(fgm.node, [("loc",), Cc], extra))
+    except (MI.Raised, AnalysisError, TypeError, ValueError) as ex:
+        got["error"] = str(ex)
+    okm = got.get("inst") == want_inst and got.get("cls") == want_cls
     rep.ob("R02.4", "get_methods walks the metaclass MRO and the class MRO for classes, the type MRO for instances", okm,
-           "both branches feed __mro__ sequences into the merge loop" if okm else "method discovery no longer covers both MROs",
-           fgm.loc, kind="site")
-    flt = [n for n in A.walk(fgm.node) if isinstance(n, ast.If) and "not in %s" % gp[0] in A.src(n.test)]
-    okf = bool(flt) and any(A.call_name(c) in ("hasattr", "callable") and (
-        len(c.args) == 1 or ctx.try_fold(c.args[1]) == "__call__") for c in A.calls(flt[0].test))
-    rep.ob("R02.4", "get_methods reports every callable attribute that is not a local name", okf,
-           "`%s`" % A.src(flt[0].test) if okf else "the callable/local-name filter changed", fgm.loc, kind="site")
+           "model hierarchy: instance -> %s; class -> %s (the class's own MRO overrides the metaclass, specific overrides base, "
+           "data attributes and local names left out)" % (sorted(want_inst), sorted(want_cls)) if okm else
+           "on the model hierarchy get_methods answers %s, expected instance %s / class %s" % (got, want_inst, want_cls),
+           fgm.loc, kind="table")
     hi = ctx.func(K.CONN + "._handle_inspect")
     okhi = any(A.src(c.args[0]) == "netref.LOCAL_ATTRS" for c in A.find_calls(hi.node, "get_methods") if c.args)
     rep.ob("R02.4", "_handle_inspect excludes exactly the proxy-local names", okhi, "get_methods(netref.LOCAL_ATTRS, obj)" if okhi
